@@ -1,4 +1,5 @@
 import RjModel.Model.Doer
+import RjModel.Model.Sync
 import RjModel.Model.ParseSettings
 /-! Line protocol of the doer / file-system model (`doer` requests of the driver). -/
 namespace Rj
@@ -95,5 +96,42 @@ def runDoerRequest (k : ChunkCfg) (wrapPre wrapPost : String) (toks : List Strin
       let r := execCmds k keepOf st0 cmds
       let flat := r.2.1.flatten.map Resp.render
       s!"resp=[{joinWith ";" (flat.filter (· ≠ ""))}] fs=[{r.1.fs.render}] done={r.2.1.length} stop={r.2.2.getD "-"}"
+
+end Rj
+
+namespace Rj
+
+/-- `D` | `F <mtime> <bytes>` | `L <text bytes>` (the target is what a doer reads from that text) -/
+def P.sentry : P SEntry := do
+  match (← P.tok) with
+  | "D" => pure .folder
+  | "F" => do let m ← P.int; let b ← P.bytes; pure (.file b m)
+  | "L" => (fun t => SEntry.link (readLinkB t)) <$> P.bytes
+  | _ => P.fail
+
+def insertByLen {α : Type} (x : FPath × α) : List (FPath × α) → List (FPath × α)
+  | [] => [x]
+  | y :: ys => if x.1.length ≤ y.1.length then x :: y :: ys else y :: insertByLen x ys
+
+/-- the destination listing below `r`, parents first -/
+def listBelow (fs : FS) (r : FPath) : List (FPath × Node) :=
+  (fs.nodes.filterMap fun e =>
+    if r <+: e.1 ∧ e.1 ≠ r then some (e.1.drop r.length, e.2) else none).foldr insertByLen []
+
+/-- `syncdest <root> <nodes> <source entries, parents first>`: the destination half of a sync on the model -/
+def runSyncDestRequest (toks : List String) : String :=
+  match P.run (do
+      let root ← P.str
+      let fs ← P.fsNodes
+      let ls ← P.list (do let p ← P.str; let e ← P.sentry; pure (pathComps p, e))
+      pure (root, fs, ls)) toks with
+  | none => "bad-op"
+  | some (root, fs, ls) =>
+    let r := pathComps root
+    let src : FPath → Option SEntry := fun p => ls.lookup p
+    match syncDest fs r src ls (listBelow fs r) with
+    | .ok fs' => s!"ok fs=[{fs'.render}]"
+    | .err => "err"
+    | .escape => "escape"
 
 end Rj
